@@ -132,6 +132,18 @@ def gen_pair(fggs, rng, mode):
         rhs.add_edge(fggs.Edge(fggs.EdgeLabel(nm, [A], is_terminal=True), [n], id='g1zz'))
         g1.add_rule(fggs.HRGRule(g1.start, rhs))
         meta['literal'] = nm
+    if mode == 'terminal-vs-nonterminal-same-name':
+        # a terminal of g1 carries the name of a nonterminal of g2 (and vice versa): no two *terminal* labels conflict,
+        # so the conjunction is defined as usual
+        for g, other in ((g1, n2), (g2, n1)):
+            if rng.random() < 0.8:
+                nm = rng.choice(other)
+                rhs = fggs.Graph()
+                n = fggs.Node(A, id='tv0')
+                rhs.add_node(n)
+                lab = fggs.EdgeLabel(nm, [A], is_terminal=True)
+                rhs.add_edge(fggs.Edge(lab, [n], id='tv_g1' if g is g1 else 'tv_g2'))
+                g.add_rule(fggs.HRGRule(g.start, rhs))
     if mode == 'terminal-conflict':
         for g, typ in ((g1, [A]), (g2, [A, A])):
             rhs = fggs.Graph()
@@ -193,7 +205,7 @@ def run_case(tier, seed, index, spec=None):
     rng = G.rng_for(seed, 'C17', tier, index)
     viols = []
     obs = dict(conjoin_calls=0, conjoined_rules_checked=0, pairs_considered=0, derivations_compared=0, enumeration_capped=0, terminal_conflicts_expected=0)
-    modes = ['plain', 'plain', 'plain', 'same-nt-names', 'name-clash', 'terminal-named-like-pair', 'terminal-conflict', 'plain', 'name-clash-3', 'name-clash-existing']
+    modes = ['plain', 'plain', 'plain', 'same-nt-names', 'name-clash', 'terminal-named-like-pair', 'terminal-conflict', 'plain', 'name-clash-3', 'name-clash-existing', 'terminal-vs-nonterminal-same-name']
     mode = modes[index % len(modes)]
     g1, g2, meta = gen_pair(fggs, rng, mode)
     snap1, snap2 = str(g1), str(g2)
@@ -352,7 +364,7 @@ def finalize(tot, tier, seed):
             inc.append(f'{k} never observed')
     if tot['obs'].get('enumeration_capped', 0) > 0.5 * tot['evaluated']:
         inc.append('derivation enumeration hit its cap in more than half of the cases')
-    for f in ('plain', 'same-nt-names', 'name-clash', 'name-clash-3', 'name-clash-existing', 'terminal-named-like-pair', 'terminal-conflict',
+    for f in ('plain', 'same-nt-names', 'name-clash', 'name-clash-3', 'name-clash-existing', 'terminal-vs-nonterminal-same-name', 'terminal-named-like-pair', 'terminal-conflict',
               'variant-ext-other', 'variant-ext-order', 'variant-slot-other', 'variant-slot-order'):
         if tot['features'].get(f, 0) == 0:
             inc.append(f'class {f} never generated')
